@@ -174,8 +174,65 @@ def time_arith_prop(dt, n):
     return None
 
 
+def between_prop(dt, et):
+    """The difference of two dates is the offset that leads from one to the
+    other: d + (e - d) == e, e - (e - d) == d, (d + n) - d == n for that n,
+    to the second - also when the result lies exactly on midnight."""
+    prog = (f"def d = {_lit(dt)}; def e = {_lit(et)}; def n = e - d; "
+            f"[string(d + n), d + n == e, string(e - n), (d + n) - d == n, "
+            f"int(d + n) == int(e)]")
+    out = cklrun.run(prog, budget=20)
+    if out[0] != "value":
+        return Finding(f"C17|between-{out[0]}", f"{prog} -> {cklrun.short(out)}")
+    got = cklrun.to_model(out[1])
+    want = [f"{et.year:04d}" + et.strftime("%m%d%H%M%S"), True,
+            f"{dt.year:04d}" + dt.strftime("%m%d%H%M%S"), True, True]
+    if got != want:
+        return Finding("C17|difference-does-not-lead-back",
+                       f"d={dt} e={et}: [string(d + (e - d)), d + (e - d) == e,"
+                       f" string(e - (e - d)), (d + n) - d == n, int(d + n) =="
+                       f" int(e)] is {got}, expected {want}")
+    return None
+
+
+def part_between(part, n):
+    def body(tape):
+        ch = TapeChooser(tape)
+        dt = _draw_date(ch)
+        et = _draw_date(ch)
+        if ch.bool(0.8):
+            dt = dt.replace(hour=ch.int(0, 23), minute=ch.int(0, 59),
+                            second=ch.int(0, 59))
+        if ch.bool(0.4):
+            et = et.replace(hour=ch.int(0, 23), minute=ch.int(0, 59),
+                            second=ch.int(0, 59))
+        if ch.bool(0.3):        # a few days apart
+            try:
+                near = dt.replace(hour=et.hour, minute=et.minute,
+                                  second=et.second) + \
+                    datetime.timedelta(days=ch.int(-3, 3))
+                if near.year >= 1000:       # four-digit years in the text
+                    et = near
+            except OverflowError:
+                pass
+        part.count()
+        part.nontriv((str(dt), str(et)))
+        midnight = et.hour == et.minute == et.second == 0
+        part.cls("between:" + ("target-at-midnight" if midnight
+                               else "target-with-time"),
+                 f"{dt} -> {et}" if part.evaluations % 50 == 0 else None)
+        f = between_prop(dt, et)
+        if f:
+            return f, {"kind": "between", "dt": _iso(dt), "et": _iso(et)}
+    part.hyp(tapes(64), body, n)
+
+
 def prop(case):
     k = case["kind"]
+    if k == "between":
+        return between_prop(
+            datetime.datetime.strptime(case["dt"], "%Y-%m-%d %H:%M:%S"),
+            datetime.datetime.strptime(case["et"], "%Y-%m-%d %H:%M:%S"))
     if k == "conv":
         return conv_prop(datetime.datetime.strptime(case["dt"],
                                                     "%Y-%m-%d %H:%M:%S"))
@@ -351,12 +408,14 @@ def parts(tier, seed):
         ps += [(f"random-{i}", part_random_conv, {"n": 2500})
                for i in range(4)]
         ps += [(f"arith-{i}", part_arith, {"n": 1500}) for i in range(4)]
+        ps += [(f"between-{i}", part_between, {"n": 1500}) for i in range(2)]
     else:
         ps += [(f"alldays-{i}", part_alldays, {"shard": i, "nshards": 32})
                for i in range(32)]
         ps += [(f"random-{i}", part_random_conv, {"n": 40000})
                for i in range(4)]
         ps += [(f"arith-{i}", part_arith, {"n": 30000}) for i in range(8)]
+        ps += [(f"between-{i}", part_between, {"n": 30000}) for i in range(4)]
         ps += [(f"arithkey-{i}", part_arith_keydays,
                 {"shard": i, "nshards": 8}) for i in range(8)]
     return ps
